@@ -70,9 +70,14 @@ def expander(pid, tier, types):
                 return []
             v = str(unlimbs(c["val"]["mag"]) * (-1 if c["val"]["neg"] else 1)) if "val" in c else str(c["n"])
             out.append(dict(id=bid, mode="prim", type=c["type"], val=v, params="", seed=seed0))
-            if pid == "C04" and c["type"] in ("int", "bits", "octets", "bool") and hash(v) % 3 == 0:
+            import zlib
+            if pid == "C04" and c["type"] in ("int", "bits", "octets", "bool") and zlib.crc32(v.encode()) % 3 == 0:
                 for j, prm in enumerate(["tagNum:3", "tagNum:3,explicit", "tagNum:31,explicit", "tagNum:16384,explicit"]):
                     out.append(dict(id="%s.p%d" % (bid, j), mode="prim", type=c["type"], val=v, params=prm, seed=seed0))
+            if pid == "C04" and c["type"] in ("octets", "utf8") and "n" in c and c["n"] >= 255:
+                # the longest headers: a tag number at the top of the range on an element whose length needs 2-3 octets
+                for j, prm in enumerate(["tagNum:2097152", "tagNum:2097152,explicit", "tagNum:268435455", "tagNum:16383,explicit"]):
+                    out.append(dict(id="%s.h%d" % (bid, j), mode="prim", type=c["type"], val=v, params=prm, seed=seed0))
         elif mode == "schema":
             if quick and c["present"] in ("only", "defaults") and (c["leaf"] != "small" or c["seed"] != 1):
                 return []      # quick: each-single-optional-present and members-at-their-DEFAULT once per type
